@@ -33,8 +33,12 @@ def build(tier, work, builder):
     slices = C19.expr_core(work)
     src = X.Source("src/document.cpp")
     fl = []
-    for name, rx in FUNCS:
-        sl = X.function(src, name, rx)
+    main = [X.function(src, name, rx) for name, rx in FUNCS]
+    # file-local static helpers the constructors call (a refactoring may split the shared part off): sliced with the same lowering
+    used = "".join(s.text for s in main)
+    helpers = [h for h in X.static_helpers(src) if re.search(r"\b%s\(" % re.escape(h.name.split()[-1]), used)]
+    for sl in helpers + main:
+        name = sl.name
         sl.sub("glue:name spelling->identity", r"(const )?(std::)?string&? (name)\b", "verif_name name")
         sl.sub("glue:string value->identity", r"(const )?(std::)?string&? (typeLSC|mode|actname)\b", r"verif_str \3")
         # a move out of an object that lives on (a member of another object) leaves it in an unspecified state: keep that
@@ -42,6 +46,10 @@ def build(tier, work, builder):
         sl.sub("L23:std::move(x)->x", r"std::move\((\w+)\)", r"\1")
         sl.sub("L15:auto&->explicit type", r"auto& loc = locations\.emplace_back\(\);", "location_t& loc = locations.emplace_back();")
         sl.sub("L15:auto&->explicit type", r"auto& branchpoint = branchpoints\.emplace_back\(\);", "branchpoint_t& branchpoint = branchpoints.emplace_back();")
+        sl.sub("L8a:if (auto i = frame.get_index_of(n)) -> if (optional i = ...; i.has_value())",
+               r"\bif \((?:const )?auto (\w+) = ([^;{}]*?\.get_index_of\([^()]*\))\)", r"if (verif_opt_index \1 = \2; \1.has_value())")
+        sl.sub("L15:auto i = frame.get_index_of(n)", r"\b(?:const )?auto (\w+) = ([^;{}]*?\.get_index_of\()", r"verif_opt_index \1 = \2")
+        X.lower_if_init(sl, required=False)
         sl.sub("glue:list<T>->std::list<T>", r"\blist<variable_t>&", "std::list<variable_t>&")
         sl.sub("glue:vector<T>->std::vector<T>", r"const vector<expression_t>&", "const std::vector<expression_t>&")
         sl.sub("glue:type constructors over frames", r"type_t::create_(instance|LSC_instance|process|process_set)\(", r"verif_create_\1(")
